@@ -2467,11 +2467,25 @@ coap_io_do_epoll_lkd(coap_context_t *ctx, struct epoll_event *events, size_t nev
 #else /* COAP_EPOLL_SUPPORT */
   coap_tick_t now;
   size_t j;
+  unsigned int removed;
 
   coap_lock_check_locked(ctx);
   coap_ticks(&now);
+  removed = ctx->epoll_removed;
   for (j = 0; j < nevents; j++) {
-    coap_socket_t *sock = (coap_socket_t *)events[j].data.ptr;
+    coap_socket_t *sock;
+
+    if (ctx->epoll_removed != removed) {
+      /*
+       * A socket has been closed since the events were collected (by a handler
+       * below, or by another thread while the lock was released around an
+       * application handler). The remaining events may point to it. They are
+       * level triggered, so whatever is still ready is reported again by the
+       * next epoll_wait().
+       */
+      break;
+    }
+    sock = (coap_socket_t *)events[j].data.ptr;
 
     /* Ignore 'timer trigger' ptr  which is NULL */
     if (sock) {
